@@ -795,18 +795,33 @@ theorem clean_iff_node (c : Cfg) (hc : Positional c) : ∀ (l : Node), CleanIffA
 
 /-- **Under positional comparison the strict report is clean exactly when the two documents are
 equal as data** (`dataEq`; under positional comparison: Python `==` on every compared pair). -/
-theorem diff_clean_iff_dataEq_strict (c : Cfg) (hc : Positional c) (l r : Node)
+theorem diff_clean_iff_dataEq_strict_partial (c : Cfg) (hc : Positional c) (l r : Node)
     (hl : wf l = true) (hr : wf r = true) : clean (diff true c l r) = true ↔ dataEq c l r = true := by
   unfold diff
   rw [clean_iff_node c hc l r [] hl hr]
 
+/- FULL STATEMENT (not proved in this generality):
+     theorem diff_clean_iff_dataEq (c : Cfg) (l r : Node) (hl : wf l) (hr : wf r)
+         (hu : UniqueIdentityKeys c l r)   -- only for c.aoh ∈ {key, deep}: every synchronised record
+                                           -- carries the identity key, with a scalar value, pairwise different
+         (hv : report c l r = diff true c l r) :
+         clean (report c l r) = true ↔ dataEq c l r = true
+   for every array mode and AoH mode.  PROVED below: the positional modes (`Positional c`).
+   MISSING for the synchronised modes (value / key / deep): (1) Python `==` (`eqv`) is symmetric and
+   transitive on well-formed documents, (2) the greedy first-match pairing of `syncLoop` finds a
+   perfect matching whenever one exists for an equivalence (`msEq_iff_perm`), (3) under unique
+   identity keys the pairing by identity value and the pairing by `==` coincide.  For those modes
+   what is proved is `diff_refl` (identical documents: clean, all modes), `sync_accounting` and the
+   two `…_report_follows_sync` theorems; the equivalence itself is checked on the real code by the
+   direct check `clean <=> data-equal` of the harness against an independent Python oracle. -/
+
 /-- **The report of the code is clean exactly when the documents are equal as data**, on every
 pair of documents outside the class of finding C06-K1 (`report c l r = diff true c l r`: no null /
 empty container is compared with a node of another kind — a decidable condition). -/
-theorem diff_clean_iff_dataEq (c : Cfg) (hc : Positional c) (l r : Node)
+theorem diff_clean_iff_dataEq_partial (c : Cfg) (hc : Positional c) (l r : Node)
     (hl : wf l = true) (hr : wf r = true) (hv : report c l r = diff true c l r) :
     clean (report c l r) = true ↔ dataEq c l r = true := by
-  rw [hv]; exact diff_clean_iff_dataEq_strict c hc l r hl hr
+  rw [hv]; exact diff_clean_iff_dataEq_strict_partial c hc l r hl hr
 
 /-- finding C06-K1 on the model: `{}` against `[]` gives an empty (hence clean) report -/
 example : clean (report ⟨.position, .position⟩ (.map none []) (.seq none [])) = true
@@ -814,7 +829,7 @@ example : clean (report ⟨.position, .position⟩ (.map none []) (.seq none [])
     ∧ report ⟨.position, .position⟩ (.map none []) (.seq none []) ≠ diff true ⟨.position, .position⟩ (.map none []) (.seq none []) := by
   decide +kernel
 
-/-- the hypothesis of `diff_clean_iff_dataEq` is met by documents with nulls and empty containers -/
+/-- the hypothesis of `diff_clean_iff_dataEq_partial` is met by documents with nulls and empty containers -/
 example : report ⟨.position, .position⟩ (.seq none [.scalar none .null, .seq none []]) (.seq none [.scalar none .null, .seq none [], .map none []])
     = diff true ⟨.position, .position⟩ (.seq none [.scalar none .null, .seq none []]) (.seq none [.scalar none .null, .seq none [], .map none []]) := by
   decide +kernel
@@ -945,5 +960,227 @@ theorem clash_covers (q : Addr) (l r : Node) :
     ∧ (∀ a ∈ leaves r, CoversR (purge true q l ++ addAll true q r) (q ++ a)) :=
   ⟨fun a ha => (purge_covers q l a ha).mono (fun _ he => List.mem_append_left _ he),
    fun a ha => (addAll_covers q r a ha).mono (fun _ he => List.mem_append_right _ he)⟩
+
+theorem scalarEntry_covers (q : Addr) (x y : Node) (a : Addr) :
+    CoversL [scalarEntry q x y] (q ++ a) ∧ CoversR [scalarEntry q x y] (q ++ a) := by
+  have h1 : (scalarEntry q x y).action ≠ .add := by unfold scalarEntry; cases eqv x y <;> simp
+  have h2 : (scalarEntry q x y).action ≠ .delete := by unfold scalarEntry; cases eqv x y <;> simp
+  exact ⟨⟨_, List.mem_singleton.mpr rfl, h1, a, by simp [scalarEntry]⟩, ⟨_, List.mem_singleton.mpr rfl, h2, a, by simp [scalarEntry]⟩⟩
+
+theorem shallow_covers (q : Addr) : ∀ (xs ys : List Node) (i : Nat),
+    (∀ a ∈ leavesSeq i xs, CoversL (posShallow q i xs ys) (q ++ a))
+    ∧ (∀ a ∈ leavesSeq i ys, CoversR (posShallow q i xs ys) (q ++ a)) := by
+  intro xs
+  induction xs with
+  | nil =>
+    intro ys i
+    rw [posShallow_nil_left]
+    exact ⟨fun a h => by simp [leavesSeq] at h, addSeq_covers q ys i⟩
+  | cons x xs ih =>
+    intro ys i
+    cases ys with
+    | nil =>
+      rw [posShallow_nil_right]
+      exact ⟨delSeq_covers q (x :: xs) i, fun a h => by simp [leavesSeq] at h⟩
+    | cons y ys =>
+      obtain ⟨ihl, ihr⟩ := ih ys (i + 1)
+      simp only [posShallow, leavesSeq, List.mem_append, List.mem_map]
+      constructor
+      · intro a h
+        cases h with
+        | inl h =>
+          obtain ⟨a', _, rfl⟩ := h
+          have := (scalarEntry_covers (q ++ [.idx i]) x y a').1
+          exact (by simpa using this : CoversL [scalarEntry (q ++ [.idx i]) x y] (q ++ Ref.idx i :: a')).mono (fun e he => by simp_all)
+        | inr h => exact (ihl a h).mono (fun e he => List.mem_cons_of_mem _ he)
+      · intro a h
+        cases h with
+        | inl h =>
+          obtain ⟨a', _, rfl⟩ := h
+          have := (scalarEntry_covers (q ++ [.idx i]) x y a').2
+          exact (by simpa using this : CoversR [scalarEntry (q ++ [.idx i]) x y] (q ++ Ref.idx i :: a')).mono (fun e he => by simp_all)
+        | inr h => exact (ihr a h).mono (fun e he => List.mem_cons_of_mem _ he)
+
+/-- the induction hypothesis handed to the list lemmas -/
+def CompleteAt (c : Cfg) (x : Node) : Prop :=
+  ∀ r q, wf x = true → wf r = true →
+    (∀ a ∈ leaves x, CoversL (diffBetween true c q x r) (q ++ a)) ∧ (∀ a ∈ leaves r, CoversR (diffBetween true c q x r) (q ++ a))
+
+theorem pos_covers (c : Cfg) (q : Addr) : ∀ (xs ys : List Node) (i : Nat),
+    (∀ x ∈ xs, CompleteAt c x) → (∀ x ∈ xs, wf x = true) → (∀ y ∈ ys, wf y = true) →
+    (∀ a ∈ leavesSeq i xs, CoversL (diffPos true c q i xs ys) (q ++ a))
+    ∧ (∀ a ∈ leavesSeq i ys, CoversR (diffPos true c q i xs ys) (q ++ a)) := by
+  intro xs
+  induction xs with
+  | nil =>
+    intro ys i _ _ _
+    simp only [diffPos]
+    exact ⟨fun a h => by simp [leavesSeq] at h, addSeq_covers q ys i⟩
+  | cons x xs ih =>
+    intro ys i hih hwx hwy
+    cases ys with
+    | nil =>
+      rw [diffPos_nil_right]
+      exact ⟨delSeq_covers q (x :: xs) i, fun a h => by simp [leavesSeq] at h⟩
+    | cons y ys =>
+      obtain ⟨ihl, ihr⟩ := ih ys (i + 1) (fun z hz => hih z (List.mem_cons_of_mem _ hz))
+        (fun z hz => hwx z (List.mem_cons_of_mem _ hz)) (fun z hz => hwy z (List.mem_cons_of_mem _ hz))
+      obtain ⟨hl, hr⟩ := hih x (List.mem_cons_self ..) y (q ++ [.idx i]) (hwx x (List.mem_cons_self ..)) (hwy y (List.mem_cons_self ..))
+      simp only [diffPos, leavesSeq, List.mem_append, List.mem_map]
+      constructor
+      · intro a h
+        cases h with
+        | inl h =>
+          obtain ⟨a', ha', rfl⟩ := h
+          have := hl a' ha'
+          exact (by simpa using this : CoversL _ (q ++ Ref.idx i :: a')).mono (fun e he => List.mem_append_left _ he)
+        | inr h => exact (ihl a h).mono (fun e he => List.mem_append_right _ he)
+      · intro a h
+        cases h with
+        | inl h =>
+          obtain ⟨a', ha', rfl⟩ := h
+          have := hr a' ha'
+          exact (by simpa using this : CoversR _ (q ++ Ref.idx i :: a')).mono (fun e he => List.mem_append_left _ he)
+        | inr h => exact (ihr a h).mono (fun e he => List.mem_append_right _ he)
+
+theorem dict_sub (c : Cfg) (q : Addr) (fs : List (Key × Node)) : ∀ (es : List (Key × Node)) (k : Key) (v : Node),
+    (k, v) ∈ es → ∀ e ∈ (match fs.lookup k with
+      | some w => diffBetween true c (q ++ [Ref.key k]) v w
+      | none => [mkDel (q ++ [Ref.key k]) v]), e ∈ diffDict true c q es fs := by
+  intro es
+  induction es with
+  | nil => intro k v h; cases h
+  | cons kv es ih =>
+    obtain ⟨k0, v0⟩ := kv
+    intro k v h e he
+    simp only [diffDict, List.mem_append]
+    cases h with
+    | head => exact Or.inl he
+    | tail _ h' => exact Or.inr (ih k v h' e he)
+
+theorem mem_of_hasKey {es : List (Key × Node)} {k : Key} (h : hasKey es k = true) : ∃ v, (k, v) ∈ es := by
+  simp only [hasKey, List.any_eq_true] at h
+  obtain ⟨kv, hkv, hk⟩ := h
+  have : kv.1 = k := by simpa using hk
+  exact ⟨kv.2, by rw [← this]; exact hkv⟩
+
+theorem complete_node (c : Cfg) (hc : Positional c) : ∀ (l : Node), CompleteAt c l := by
+  intro l
+  induction l using nodeInduct with
+  | hscalar a v =>
+    intro r q hl hr
+    cases r with
+    | scalar b w =>
+      simp only [diffBetween, leaves, List.mem_singleton]
+      exact ⟨fun x hx => by subst hx; exact (scalarEntry_covers q _ _ []).1, fun x hx => by subst hx; exact (scalarEntry_covers q _ _ []).2⟩
+    | seq b ys => simp only [diffBetween]; exact clash_covers q _ _
+    | map b fs => simp only [diffBetween]; exact clash_covers q _ _
+    | set b ns => simp only [diffBetween]; exact clash_covers q _ _
+  | hset a ms =>
+    intro r q hl hr
+    cases r with
+    | set b ns =>
+      simp only [diffBetween, leaves, List.mem_map]
+      constructor
+      · intro x hx
+        obtain ⟨k, hk, rfl⟩ := hx
+        refine ⟨_, List.mem_append_left _ (List.mem_map.mpr ⟨k, hk, rfl⟩), ?_, [], ?_⟩
+        · cases ns.contains k <;> simp [mkDel]
+        · cases ns.contains k <;> simp [mkDel]
+      · intro x hx
+        obtain ⟨k, hk, rfl⟩ := hx
+        cases hm : ms.contains k with
+        | true =>
+          have hkm : k ∈ ms := by simpa using hm
+          have hkn : ns.contains k = true := by simpa using hk
+          refine ⟨_, List.mem_append_left _ (List.mem_map.mpr ⟨k, hkm, rfl⟩), ?_, [], ?_⟩ <;> simp [hk]
+        | false =>
+          have hkm : ¬ k ∈ ms := by intro h; have : ms.contains k = true := by simpa using h
+                                    rw [hm] at this; cases this
+          refine ⟨mkAdd (q ++ [.member k]) (keyNode k), List.mem_append_right _ (List.mem_map.mpr ⟨k, ?_, rfl⟩), by simp [mkAdd], [], by simp [mkAdd]⟩
+          simp [List.mem_filter, hk, hkm]
+    | scalar b w => simp only [diffBetween]; exact clash_covers q _ _
+    | seq b ys => simp only [diffBetween]; exact clash_covers q _ _
+    | map b fs => simp only [diffBetween]; exact clash_covers q _ _
+  | hmap a es ih =>
+    intro r q hl hr
+    cases r with
+    | map b fs =>
+      obtain ⟨hd, hv⟩ := wf_map hl
+      obtain ⟨hd', hv'⟩ := wf_map hr
+      simp only [diffBetween, leaves]
+      constructor
+      · intro x hx
+        obtain ⟨kv, hkv, a', ha', rfl⟩ := mem_leavesMap hx
+        have hsub := dict_sub c q fs es kv.1 kv.2 hkv
+        cases hf : fs.lookup kv.1 with
+        | some w =>
+          rw [hf] at hsub
+          have := (ih kv hkv w (q ++ [.key kv.1]) (hv kv hkv) (hv' (kv.1, w) (mem_of_lookup hf))).1 a' ha'
+          exact (by simpa using this : CoversL _ (q ++ Ref.key kv.1 :: a')).mono (fun e he => List.mem_append_left _ (hsub e he))
+        | none =>
+          rw [hf] at hsub
+          exact ⟨mkDel (q ++ [.key kv.1]) kv.2, List.mem_append_left _ (hsub _ (List.mem_singleton.mpr rfl)), by simp [mkDel], a', by simp [mkDel]⟩
+      · intro x hx
+        obtain ⟨kw, hkw, a', ha', rfl⟩ := mem_leavesMap hx
+        cases hh : hasKey es kw.1 with
+        | true =>
+          obtain ⟨v, hkv⟩ := mem_of_hasKey hh
+          have hsub := dict_sub c q fs es kw.1 v hkv
+          rw [lookup_of_mem hd' kw hkw] at hsub
+          have := (ih (kw.1, v) hkv kw.2 (q ++ [.key kw.1]) (hv (kw.1, v) hkv) (hv' kw hkw)).2 a' ha'
+          exact (by simpa using this : CoversR _ (q ++ Ref.key kw.1 :: a')).mono (fun e he => List.mem_append_left _ (hsub e he))
+        | false =>
+          refine ⟨mkAdd (q ++ [.key kw.1]) kw.2, List.mem_append_right _ (List.mem_map.mpr ⟨kw, ?_, rfl⟩), by simp [mkAdd], a', by simp [mkAdd]⟩
+          simp [List.mem_filter, hkw, hh]
+    | scalar b w => simp only [diffBetween]; exact clash_covers q _ _
+    | seq b ys => simp only [diffBetween]; exact clash_covers q _ _
+    | set b ns => simp only [diffBetween]; exact clash_covers q _ _
+  | hseq a xs ih =>
+    intro r q hl hr
+    cases r with
+    | seq b ys =>
+      simp only [diffBetween, leaves]
+      rcases listMode_positional hc xs ys with hm | hm | hm
+      · rw [hm]
+        have hx : xs = [] ∧ ys = [] := by
+          unfold listMode at hm
+          cases ys with
+          | nil =>
+            cases xs with
+            | nil => exact ⟨rfl, rfl⟩
+            | cons x xs => simp only at hm; split at hm <;> (try split at hm) <;> (try split at hm) <;> simp at hm
+          | cons y ys => simp only at hm; split at hm <;> (try split at hm) <;> (try split at hm) <;> simp at hm
+        rw [hx.1, hx.2]
+        exact ⟨fun a h => by simp [leavesSeq] at h, fun a h => by simp [leavesSeq] at h⟩
+      · rw [hm]; exact shallow_covers q xs ys 0
+      · rw [hm]; exact pos_covers c q xs ys 0 ih (wf_seq_mem hl) (wf_seq_mem hr)
+    | scalar b w => simp only [diffBetween]; exact clash_covers q _ _
+    | map b fs => simp only [diffBetween]; exact clash_covers q _ _
+    | set b ns => simp only [diffBetween]; exact clash_covers q _ _
+
+/-- **Under positional comparison every leaf of either document is covered by an entry at its
+path or at an ancestor path** — a left leaf by a SAME/CHANGE/DELETE entry, a right leaf by a
+SAME/CHANGE/ADD entry — in the strict report. -/
+theorem diff_complete_strict (c : Cfg) (hc : Positional c) (l r : Node) (hl : wf l = true) (hr : wf r = true) :
+    (∀ a ∈ leaves l, ∃ e ∈ diff true c l r, e.action ≠ .add ∧ covers e.path a)
+    ∧ (∀ a ∈ leaves r, ∃ e ∈ diff true c l r, e.action ≠ .delete ∧ covers e.path a) := by
+  obtain ⟨h1, h2⟩ := complete_node c hc l r [] hl hr
+  exact ⟨fun a ha => by simpa [CoversL, covers, diff] using h1 a ha, fun a ha => by simpa [CoversR, covers, diff] using h2 a ha⟩
+
+/-- (`_partial`: the class of finding C06-K1 is excluded by the decidable hypothesis `hv`; the full
+statement — without `hv` — is false for the code, witness below, and is `diff_complete_strict` for
+the strict variant.)
+**Completeness of the code's report**, on every pair of documents outside the class of finding
+C06-K1 (`report c l r = diff true c l r`, decidable). -/
+theorem diff_complete_partial (c : Cfg) (hc : Positional c) (l r : Node) (hl : wf l = true) (hr : wf r = true)
+    (hv : report c l r = diff true c l r) :
+    (∀ a ∈ leaves l, ∃ e ∈ report c l r, e.action ≠ .add ∧ covers e.path a)
+    ∧ (∀ a ∈ leaves r, ∃ e ∈ report c l r, e.action ≠ .delete ∧ covers e.path a) := by
+  rw [hv]; exact diff_complete_strict c hc l r hl hr
+
+/-- finding C06-K1 on the model: `null` against `[1]` — the left leaf (the root) has no entry -/
+example : report ⟨.position, .position⟩ (.scalar none .null) (.seq none [.scalar none (.int 1)])
+    = [mkAdd [.idx 0] (.scalar none (.int 1))] := by decide +kernel
 
 end Ypv.C06
